@@ -202,14 +202,17 @@ def mixed_order(ctx, n):
         msg = vals.rb(rng, 6)
         k = k_of(Rb2, Ah, msg, phc)
         add_verify(ctx, Ah, msg, Rb2 + to32((r + k * a) % L), ['cofactored-only'], phc)
-        # (3) both with torsion, chosen so that torsion cancels: R = rB - k*jT?  (fixed point search over messages)
-        for _t in range(16):
+        # (3) both with torsion, chosen so that torsion cancels: R = rB - k*jT?  (fixed point search over messages);
+        #     every other time R has no prime-order part at all (r = 0: a small-order R, which the strict verifiers refuse)
+        r3 = r if rng.random() < 0.5 else 0
+        phc = rng.choice([None, None, b'', vals.rb(rng, 1)]) if r3 == 0 else phc
+        for _t in range(24):
             msg = vals.rb(rng, 6)
             jr = rng.randrange(8)
-            Rb3 = vals.Pt(r, jr).encoding()
+            Rb3 = vals.Pt(r3, jr).encoding()
             k = k_of(Rb3, Ab, msg, phc)
             if (jr + k * j) % 8 == 0:
-                add_verify(ctx, Ab, msg, Rb3 + to32((r + k * a) % L), ['mixedA', 'torsion-cancels'], phc)
+                add_verify(ctx, Ab, msg, Rb3 + to32((r3 + k * a) % L), ['mixedA', 'torsion-cancels'] + (['smallR'] if r3 == 0 else []), phc)
                 break
 
 
